@@ -21,6 +21,87 @@ use std::rc::Rc;
 
 pub struct C19;
 
+/// Read a WebTransport stream to its end through one of the three interfaces the stream types offer, recording
+/// every byte in `rec.incoming[id]` as soon as it has been read: 0 the h3::quic::RecvStream trait, 1 tokio's
+/// AsyncRead the way read_exact uses it (one ReadBuf of `cap` bytes that is filled over several calls), 2 the
+/// futures AsyncRead with a slice of `cap` bytes.
+macro_rules! wt_read_all {
+    ($s:expr, $mode:expr, $cap:expr, $rec:expr, $id:expr, $label:expr) => {{
+        let id = $id;
+        match $mode {
+            1 => {
+                obs::count("probe.wt_stream_read_through_tokio_asyncread");
+                let cap: usize = $cap;
+                let mut storage = vec![0u8; cap];
+                let mut filled = 0usize;
+                loop {
+                    let r = poll_fn(|cx| {
+                        let mut rb = tokio::io::ReadBuf::new(&mut storage);
+                        rb.set_filled(filled);
+                        match tokio::io::AsyncRead::poll_read(std::pin::Pin::new(&mut $s), cx, &mut rb) {
+                            std::task::Poll::Ready(Ok(())) => std::task::Poll::Ready(Ok(rb.filled().len())),
+                            std::task::Poll::Ready(Err(e)) => std::task::Poll::Ready(Err(e)),
+                            std::task::Poll::Pending => std::task::Poll::Pending,
+                        }
+                    })
+                    .await;
+                    match r {
+                        Ok(n) if n < filled => {
+                            $rec.borrow_mut().read_errs.push(format!("{} {id}: tokio poll_read lowered the fill level of the caller's ReadBuf from {filled} to {n}", $label));
+                            break;
+                        }
+                        Ok(n) if n == filled => {
+                            $rec.borrow_mut().incoming.get_mut(&id).unwrap().2 = true;
+                            break;
+                        }
+                        Ok(n) => {
+                            $rec.borrow_mut().incoming.get_mut(&id).unwrap().1.extend_from_slice(&storage[filled..n]);
+                            filled = if n == cap { 0 } else { n };
+                        }
+                        Err(e) => {
+                            $rec.borrow_mut().read_errs.push(format!("{} {id}: {e}", $label));
+                            break;
+                        }
+                    }
+                }
+            }
+            2 => {
+                obs::count("probe.wt_stream_read_through_futures_asyncread");
+                let cap: usize = $cap;
+                let mut storage = vec![0u8; cap];
+                loop {
+                    let r = poll_fn(|cx| futures_util::io::AsyncRead::poll_read(std::pin::Pin::new(&mut $s), cx, &mut storage)).await;
+                    match r {
+                        Ok(0) => {
+                            $rec.borrow_mut().incoming.get_mut(&id).unwrap().2 = true;
+                            break;
+                        }
+                        Ok(n) => $rec.borrow_mut().incoming.get_mut(&id).unwrap().1.extend_from_slice(&storage[..n]),
+                        Err(e) => {
+                            $rec.borrow_mut().read_errs.push(format!("{} {id}: {e}", $label));
+                            break;
+                        }
+                    }
+                }
+            }
+            _ => loop {
+                match poll_fn(|cx| h3::quic::RecvStream::poll_data(&mut $s, cx)).await {
+                    Ok(Some(b)) => $rec.borrow_mut().incoming.get_mut(&id).unwrap().1.extend_from_slice(&b),
+                    Ok(None) => {
+                        $rec.borrow_mut().incoming.get_mut(&id).unwrap().2 = true;
+                        break;
+                    }
+                    Err(e) => {
+                        $rec.borrow_mut().read_errs.push(format!("{} {id}: {e}", $label));
+                        break;
+                    }
+                }
+            },
+        }
+    }};
+}
+
+
 fn sid_value(s: SessionId) -> u64 {
     StreamId::from(s).into_inner()
 }
@@ -46,7 +127,7 @@ impl Check for C19 {
     fn meta(&self) -> Meta {
         Meta {
             level: "exploration",
-            rule: "CONNECT (webtransport) request placed on stream id 4k for k in {0,1,2,3,15,16,4095,4096,2^28,2^58} (1-, 2-, 4- and 8-byte varint ids), accepted first or after 0-2 ordinary requests; extension enabled or disabled on the server; 0-3 client-opened WebTransport uni and 0-2 bidi streams (read whole, or split() before the first read) whose header (0x54/0x41 + session id, every varint form) and payload (0..40 bytes, sometimes 300) are delivered in 1-3 byte chunks so that every boundary inside the two varints and the header/payload boundary falls on a chunk edge, incl. header+payload in one chunk with nothing after it and header then FIN; 0-2 server-opened uni and bidi streams with drawn write acceptance; all interleavings drawn; judged at exact quiescence with the streams still open; non-trivial = session established and >= 1 WebTransport stream; distinct = distinct schedule signatures",
+            rule: "CONNECT (webtransport) request placed on stream id 4k for k in {0,1,2,3,15,16,4095,4096,2^28,2^58} (1-, 2-, 4- and 8-byte varint ids), accepted first or after 0-2 ordinary requests; extension enabled or disabled on the server; 0-3 client-opened WebTransport uni and 0-2 bidi streams (read whole, or split() before the first read; each stream read through the h3::quic::RecvStream trait, through tokio's AsyncRead with one ReadBuf of 1-16 bytes filled over several calls as read_exact does, or through the futures AsyncRead) whose header (0x54/0x41 + session id, every varint form) and payload (0..40 bytes, sometimes 300) are delivered in 1-3 byte chunks so that every boundary inside the two varints and the header/payload boundary falls on a chunk edge, incl. header+payload in one chunk with nothing after it and header then FIN; 0-2 server-opened uni and bidi streams with drawn write acceptance; all interleavings drawn; judged at exact quiescence with the streams still open; non-trivial = session established and >= 1 WebTransport stream; distinct = distinct schedule signatures",
             real: &["h3_webtransport::server::WebTransportSession (accept, session_id, open_bi, open_uni, accept_bi, accept_uni)", "h3_webtransport::stream types", "h3::webtransport::SessionId", "h3 server connection, AcceptRecvStream (uni header resolution), FrameStream (0x41 signal), stream header encoding"],
             stub: &["QUIC transport incl. datagram and unframed-send extension traits (SimQuic)", "executor (simexec)", "reference client (script, reference codecs)", "application tasks"],
             assumptions: &["the reference client opens WebTransport bidi streams only after it has seen the 2xx response (a bidi stream that overtakes the CONNECT request is refused by h3's ordinary accept path, which is outside this property)", "stream ids above 2^20 are used with arrival-order accept only"],
@@ -243,20 +324,9 @@ impl Check for C19 {
                         let id = s.recv_id().into_inner();
                         rec.borrow_mut().incoming.insert(id, (sid_value(sid), vec![], false));
                         let rec = rec.clone();
+                        let (mode, cap) = (draw(3), 1 + draw_usize(16));
                         exec::spawn(format!("wt-uni-reader{id}"), async move {
-                            loop {
-                                match poll_fn(|cx| s.poll_data(cx)).await {
-                                    Ok(Some(b)) => rec.borrow_mut().incoming.get_mut(&id).unwrap().1.extend_from_slice(&b),
-                                    Ok(None) => {
-                                        rec.borrow_mut().incoming.get_mut(&id).unwrap().2 = true;
-                                        return;
-                                    }
-                                    Err(e) => {
-                                        rec.borrow_mut().read_errs.push(format!("uni {id}: {e}"));
-                                        return;
-                                    }
-                                }
-                            }
+                            wt_read_all!(s, mode, cap, rec, id, "uni");
                         });
                     }
                 }
@@ -271,20 +341,9 @@ impl Check for C19 {
                                     let id = s.recv_id().into_inner();
                                     rec.borrow_mut().incoming.insert(id, (sid_value(sid), vec![], false));
                                     let rec = rec.clone();
+                                    let (mode, cap) = (draw(3), 1 + draw_usize(16));
                                     exec::spawn(format!("wt-uni-reader{id}"), async move {
-                                        loop {
-                                            match poll_fn(|cx| s.poll_data(cx)).await {
-                                                Ok(Some(b)) => rec.borrow_mut().incoming.get_mut(&id).unwrap().1.extend_from_slice(&b),
-                                                Ok(None) => {
-                                                    rec.borrow_mut().incoming.get_mut(&id).unwrap().2 = true;
-                                                    return;
-                                                }
-                                                Err(e) => {
-                                                    rec.borrow_mut().read_errs.push(format!("uni {id}: {e}"));
-                                                    return;
-                                                }
-                                            }
-                                        }
+                                        wt_read_all!(s, mode, cap, rec, id, "uni");
                                     });
                                 }
                                 Ok(None) => return,
@@ -309,40 +368,17 @@ impl Check for C19 {
                                     let rec = rec.clone();
                                     // the application may split the accepted stream before it reads (one time in two)
                                     let split_first = draw(2) == 1;
+                                    let (mode, cap) = (draw(3), 1 + draw_usize(16));
                                     exec::spawn(format!("wt-bi-reader{id}"), async move {
                                         if split_first {
                                             obs::count("probe.incoming_bidi_split_before_reading");
                                             let (tx, mut rx) = h3::quic::BidiStream::split(s);
-                                            loop {
-                                                match poll_fn(|cx| h3::quic::RecvStream::poll_data(&mut rx, cx)).await {
-                                                    Ok(Some(b)) => rec.borrow_mut().incoming.get_mut(&id).unwrap().1.extend_from_slice(&b),
-                                                    Ok(None) => {
-                                                        rec.borrow_mut().incoming.get_mut(&id).unwrap().2 = true;
-                                                        break;
-                                                    }
-                                                    Err(e) => {
-                                                        rec.borrow_mut().read_errs.push(format!("bidi {id} (receive half): {e}"));
-                                                        break;
-                                                    }
-                                                }
-                                            }
+                                            wt_read_all!(rx, mode, cap, rec, id, "bidi (receive half)");
                                             std::future::pending::<()>().await;
                                             drop(tx);
                                             return;
                                         }
-                                        loop {
-                                            match poll_fn(|cx| s.poll_data(cx)).await {
-                                                Ok(Some(b)) => rec.borrow_mut().incoming.get_mut(&id).unwrap().1.extend_from_slice(&b),
-                                                Ok(None) => {
-                                                    rec.borrow_mut().incoming.get_mut(&id).unwrap().2 = true;
-                                                    return;
-                                                }
-                                                Err(e) => {
-                                                    rec.borrow_mut().read_errs.push(format!("bidi {id}: {e}"));
-                                                    return;
-                                                }
-                                            }
-                                        }
+                                        wt_read_all!(s, mode, cap, rec, id, "bidi");
                                     });
                                 }
                                 Ok(Some(AcceptedBi::Request(_, mut s))) => {
